@@ -20,7 +20,7 @@ from typing import Any, Dict, List, Optional, Tuple
 
 from ..cfg import cfg_of
 from ..consteval import ConstEval
-from ..flow import Sym, fpaths, attr_effects
+from ..flow import Sym, fpaths, attr_effects, allfacts
 from ..model import FuncInfo, attr_chain, norm, walk_no_nested
 from ..report import Checker
 from .forward import forward_sites_check
@@ -44,7 +44,7 @@ def pipeline_reset_check(ch: Checker, rule: str) -> None:
                 st = n_.ast
                 if isinstance(st, ast.Assign) and attr_chain(st.targets[0]) == 'self.pipeline_request' and norm(st.value) == 'None':
                     n += 1
-                    facts = dict(p.facts(i))
+                    facts = allfacts(p, i)
                     complete = [v for k, v in facts.items() if k.endswith('.is_complete') and 'pipeline_request' in k or k == 'request.is_complete']
                     # alias: request = self.pipeline_request; request.is_complete
                     sym = Sym(p)
@@ -87,7 +87,7 @@ def run(ch: Checker) -> None:
         ch.paths += 1
         if p.exit_kind != 'return':
             continue
-        f = dict(p.facts())
+        f = allfacts(p)
         if f.get('for_proxy') is True:
             continue
         n += 1
@@ -141,7 +141,7 @@ def run(ch: Checker) -> None:
             # loop form: a dict filled inside `for ... in self.headers[.items()]` on this path
             r2 = _loop_form_headers(g, p, sym, hv, last[0])
             if r2 is None:
-                if not (hv is not None and norm(hv) in ('{}',) and dict(p.facts()).get('self.headers') is False):
+                if not (hv is not None and norm(hv) in ('{}',) and allfacts(p).get('self.headers') is False):
                     res['headers'] = 'headers handed to the builder (%s) are neither a comprehension over self.headers nor a dict filled in a loop over it' % (norm(hv)[:60] if hv is not None else 'missing')
             else:
                 for kk, vv in r2.items():
@@ -177,7 +177,7 @@ def run(ch: Checker) -> None:
                 seq.append('add:' + norm(st.value))
             if n_.kind == 'for' and lab == 'iter':
                 seq.append('loop:' + norm(st.iter) + ':' + norm(st.target))  # type: ignore[union-attr]
-        facts = dict(p.facts())
+        facts = allfacts(p)
         want = ['init:WHITESPACE.join(%s) + CRLF' % line]
         looped = [s for s in seq if s.startswith('loop:')]
         if looped:
